@@ -1,0 +1,45 @@
+//go:build verif
+
+/*
+Copyright 2025 The Volcano Authors.
+
+Licensed under the Apache License, Version 2.0 (the "License");
+you may not use this file except in compliance with the License.
+You may obtain a copy of the License at
+
+    http://www.apache.org/licenses/LICENSE-2.0
+
+Unless required by applicable law or agreed to in writing, software
+distributed under the License is distributed on an "AS IS" BASIS,
+WITHOUT WARRANTIES OR CONDITIONS OF ANY KIND, either express or implied.
+See the License for the specific language governing permissions and
+limitations under the License.
+*/
+
+package cache
+
+import (
+	"context"
+
+	agentapi "volcano.sh/volcano/pkg/agentscheduler/api"
+)
+
+// VerifProcessBindFlowBatch takes ALL bind contexts AddBindTask queued on BindFlowChannel as ONE
+// batch - what processBindTask collects in bindCache when BATCH_BIND_NUM is greater than one - and
+// runs, inline, what BindTask runs in a goroutine for the batch: the registered pre-binders for
+// every context (executePreBinds), then one Bind call for the contexts that passed them. It returns
+// the batch size. Nothing here changes the behaviour of the functions it calls.
+func (sc *SchedulerCache) VerifProcessBindFlowBatch() int {
+	batch := []*agentapi.BindContext{}
+	for len(sc.BindFlowChannel) > 0 {
+		batch = append(batch, <-sc.BindFlowChannel)
+	}
+	if len(batch) == 0 {
+		return 0
+	}
+	ctx := context.Background()
+	preBinders := sc.binderRegistry.getRegisteredPreBinders()
+	successful := sc.executePreBinds(ctx, batch, preBinders)
+	sc.Bind(ctx, successful, preBinders)
+	return len(batch)
+}
